@@ -1070,6 +1070,8 @@ theorem store_storageInv {nd nd' : Node} {b : Block} (inv : StorageInv nd) (hs :
         intro y; apply List.take_of_length_le; simp; omega
       rw [htake]
       unfold storageOk at hok
+      simp only [Bool.and_eq_true] at hok
+      have hok := hok.1.1
       rw [List.all_eq_true] at hok
       have := hok e he
       simpa [Bool.or_eq_true] using this
